@@ -171,3 +171,68 @@ def share_contracts(prop, modname, select):
             names.append(c.qname)
     assert names, 'no contract of %s selected' % modname
     return names
+
+
+def record_accessor_obligations(ctx, rel_files=None):
+    """Tuple-backed record classes (`class X(tuple)` with `__new__` building `tuple.__new__(cls, (a, b, ...))` and
+    accessors `return self[k]`): an accessor that is named like a constructor parameter must return the component
+    that is built from that parameter.  AST scan of the whole tree (or of the given files below exactly_lib/)."""
+    import ast
+    import os
+    from pyvc import REPO_SRC
+    root = os.path.join(REPO_SRC, 'exactly_lib')
+    n = 0
+    for dirpath, _dirs, files in os.walk(root):
+        for fn in sorted(files):
+            if not fn.endswith('.py'):
+                continue
+            path = os.path.join(dirpath, fn)
+            rel = os.path.relpath(path, root).replace(os.sep, '/')
+            if rel_files is not None and rel not in rel_files:
+                continue
+            src = open(path, encoding='utf-8').read()
+            if 'tuple.__new__' not in src:
+                continue
+            for cls in [c for c in ast.walk(ast.parse(src, path)) if isinstance(c, ast.ClassDef)]:
+                new = [f for f in cls.body if isinstance(f, ast.FunctionDef) and f.name == '__new__']
+                if not new:
+                    continue
+                params = [a.arg for a in new[0].args.args[1:] + new[0].args.kwonlyargs]
+                elems = None
+                for c in ast.walk(new[0]):
+                    if isinstance(c, ast.Call) and isinstance(c.func, ast.Attribute) and c.func.attr == '__new__' \
+                            and isinstance(c.func.value, ast.Name) and c.func.value.id == 'tuple' \
+                            and len(c.args) == 2 and isinstance(c.args[1], ast.Tuple):
+                        elems = c.args[1].elts
+                if elems is None:
+                    continue
+                # locals of __new__ stand for the parameters they are computed from
+                origin = {p: {p} for p in params}
+                for st in ast.walk(new[0]):
+                    if isinstance(st, ast.Assign) and len(st.targets) == 1 and isinstance(st.targets[0], ast.Name):
+                        src_names = set()
+                        for x in ast.walk(st.value):
+                            if isinstance(x, ast.Name):
+                                src_names |= origin.get(x.id, set())
+                        origin[st.targets[0].id] = origin.get(st.targets[0].id, set()) | src_names
+                built_from = [set().union(*[origin.get(x.id, set()) for x in ast.walk(e) if isinstance(x, ast.Name)] or [set()])
+                              for e in elems]
+                for f in cls.body:
+                    if not (isinstance(f, ast.FunctionDef) and f.name in params
+                            and any(isinstance(d, ast.Name) and d.id == 'property' for d in f.decorator_list)):
+                        continue
+                    rets = [r for r in ast.walk(f) if isinstance(r, ast.Return)]
+                    if len(rets) != 1 or not (isinstance(rets[0].value, ast.Subscript)
+                                              and isinstance(rets[0].value.value, ast.Name)
+                                              and rets[0].value.value.id == 'self'
+                                              and isinstance(rets[0].value.slice, ast.Constant)
+                                              and isinstance(rets[0].value.slice.value, int)):
+                        continue
+                    k = rets[0].value.slice.value
+                    ok = 0 <= k < len(elems) and f.name in built_from[k]
+                    n += 1
+                    ctx.obligation('%s: %s.%s returns the component built from the constructor argument `%s`'
+                                   % (rel, cls.name, f.name, f.name), ok, 'scan',
+                                   detail={'index': k, 'component': ast.unparse(elems[k]) if 0 <= k < len(elems) else None})
+    ctx.obligation('record classes were found', n >= 1, 'scan', detail={'accessors': n})
+    return n
